@@ -416,8 +416,32 @@ def check_case(ctx, case, record=True):
             ctx.violation(case2, f"composite member {ri} received the notifications in a different order than member 0")
 
 
+def age_process(n=4600):
+    """History before the generated cases: this process has already built, run and discarded a plan with a few thousand
+    distinct call functions (per-item closures), as a long-lived driver process has.  Whatever uberjob remembers about
+    functions of dead plans must not leak into the account of later runs."""
+    import gc
+
+    def make(i):
+        def item():
+            return i
+        item.__qualname__ = f"aged.item{i}"
+        item.__module__ = "history"
+        return item
+
+    plan = uberjob.Plan()
+    with plan.scope("aged"):
+        nodes = [plan.call(make(i)) for i in range(n)]
+    rec = Recorder()
+    uberjob.run(plan, output=nodes, progress=Progress(lambda: rec), max_workers=2)
+    del plan, nodes, rec
+    gc.collect()
+
+
 def run_shard(ctx):
     max_nodes = 8 if ctx.tier == "quick" else 12
+    age_process()
+    ctx.count("process_aged_with_4600_dead_call_functions")
 
     @given(cases(max_nodes))
     def test(case):
